@@ -5,3 +5,4 @@ open Model.SlicesGen
 #print axioms appendPlan_eq
 #print axioms getEveryPow2_eq
 #print axioms everyPow2_fuel
+#print axioms setIdentity_eq
